@@ -147,6 +147,18 @@ CHECKS = {
          'LRParser and the grammar actions are modelled (lr_step, sem_action) and tied by correspondence; a changed '
          'precedence/table breaks the certificate obligation itself.',
     technique='Coq proof (table certificate by vm_compute + structural induction on trees over the generated LR tables) + generated tables + random-tree correspondence'),
+ 'C05': dict(
+    text='Coq theorems over a transcription of the 36 token recognisers and the real LR driver on the generated tables: '
+         'integer, decimal, percent and power literals of any length evaluate to exactly the number spelled, a quoted literal '
+         'to exactly its content; leading white space and white space between stand-alone tokens never changes the token '
+         'sequence; for every present/absent pattern of up to 6 slots the three separators agree and an accepted call passes '
+         'exactly the slot list; array literal shapes; labels are case-insensitive. Tied to the code by the lexer '
+         'correspondence on every string of length <= 3/4 over 26 class representatives and formulas through Parser.parse.',
+    design='7/C05',
+    note='Python re is modelled by hand-written recognisers (first-match in ply rule order, validated against the real lexer); '
+         'white space inside multi-character tokens or between a function name and "(" is outside the property; 1 known finding '
+         '(content ending in a backslash followed later by another quote).',
+    technique='Coq proof (induction on digit strings / token lists, finite slot-pattern sweep by vm_compute on the generated tables) + exhaustive short-string lexer correspondence'),
 }
 PENDING = {}
 def main():
